@@ -32,7 +32,7 @@ runs_for() { # variant
     C05:asan)  [ $q = 1 ] && echo 150  || echo 6000 ;;
     C09:plain) [ $q = 1 ] && echo 2500 || echo 60000 ;;
     C03:plain) [ $q = 1 ] && echo 2000 || echo 40000 ;;
-    C04:plain) [ $q = 1 ] && echo 2000 || echo 40000 ;;
+    C04:plain) [ $q = 1 ] && echo 1500 || echo 40000 ;;
     C07:plain) [ $q = 1 ] && echo 3000 || echo 100000 ;;
     C08:plain) [ $q = 1 ] && echo 4000 || echo 60000 ;;
     C10:asan)  [ $q = 1 ] && echo 1000 || echo 30000 ;;
@@ -72,6 +72,7 @@ fi
 # valgrind over a few replayed seeds of the plain binary (uninitialised values; C10 thorough only)
 if [ "$PROP" = "C10" ] && [ $rc -eq 0 ]; then
   ./build.sh vg > build/ev/build_vg.log 2>&1 || { echo "INFRA: vg build failed"; exit 2; }
+  ./build.sh vg0 > build/ev/build_vg0.log 2>&1 || { echo "INFRA: vg0 build failed"; exit 2; }
   ./valgrind_replays.sh "$SEED" $([ "$TIER" = "thorough" ] && echo 60 || echo 8) || rc=$?
 fi
 
